@@ -184,6 +184,8 @@ def _effective_dir(desc):
     d, over = loop
     pushed_reversed = bool(desc.all('reverse-pushed'))
     if d == 'ITER' and over and (over.startswith('KEYS(') or over.startswith('SPEC.node_data')):
+        if desc.reverse_on_every_path is False:
+            return 'KEYS reversed on some paths only'
         rev = ('REVERSE' in desc.key_pipeline) != pushed_reversed
         return 'KEYS_REV' if rev else 'KEYS'
     if pushed_reversed:
